@@ -530,7 +530,11 @@ pub fn suite(out: &mut Out, seed: u64, thorough: bool, mode: &str) {
 			scalar_ma!(mode, o, &mut r, DEMA, "dema", len, &xs);
 			scalar_ma!(mode, o, &mut r, TEMA, "tema", len, &xs);
 			scalar_ma!(mode, o, &mut r, RMA, "rma", len, &xs);
-			scalar_ma!(mode, o, &mut r, WSMA, "wsma", len, &xs);
+			// cross-build runs: WSMA accepts lengths up to PeriodType::MAX / 2 only, so a length above 127 is accepted by the wide
+			// builds and refused by the default one; the transcripts are compared line by line, so it is left out there
+			if !(crate::util::is_compat() && l > 127) {
+				scalar_ma!(mode, o, &mut r, WSMA, "wsma", len, &xs);
+			}
 			scalar_ma!(mode, o, &mut r, SWMA, "swma", len, &xs);
 			scalar_ma!(mode, o, &mut r, TRIMA, "trima", len, &xs);
 			scalar_ma!(mode, o, &mut r, HMA, "hma", len, &xs);
